@@ -26,6 +26,7 @@ REV_IN, REV_OUT, FWD_OUT = "REV_IN", "REV_OUT", "FWD_OUT"  # rename maps
 
 OUTER_ATTRS = {"inputs", "outputs", "_map_over", "_clone", "data_outputs", "wait_for"}
 GRAPH_ATTRS = {"_graph", "graph", "nested_graph"}
+NAME_SEQUENCE_ATTRS = {"inputs", "outputs", "data_outputs", "wait_for", "_map_over", "_clone", "selected", "required", "optional", "all"}
 INNER_NAME_ATTRS = {"inputs", "outputs", "selected", "bound", "all", "required", "optional", "entrypoints", "leaf_outputs", "data_outputs"}
 NODE_NAME_METHODS = {"has_default_for", "get_default_for", "has_signature_default_for", "get_signature_default_for", "get_input_type", "get_output_type"}
 TO_INNER_METHODS = {"_resolve_original_input_name", "map_inputs_to_params", "_original_map_params", "_original_clone"}
@@ -146,6 +147,9 @@ class NameSpaces:
                 kind = e.args[1].value if len(e.args) > 1 and isinstance(e.args[1], ast.Constant) else next((k.value.value for k in e.keywords if k.arg == "kind" and isinstance(k.value, ast.Constant)), "inputs")
                 return REV_OUT if kind == "outputs" else REV_IN
             return None
+        if isinstance(e, ast.Subscript) and isinstance(e.value, ast.Attribute) and e.value.attr in NAME_SEQUENCE_ATTRS:
+            # an element of a sequence of names (node.inputs[0]) lives in the space of the sequence
+            return self.q(e.value, scope)
         if isinstance(e, ast.IfExp):
             return join(self.q(e.body, scope), self.q(e.orelse, scope))
         if isinstance(e, ast.BoolOp):
